@@ -139,6 +139,13 @@ func CheckC09(c C09Case, rec *Rec) error {
 		if err := exec.VerifPrepare(ctx, gen, pop); err != nil {
 			return fmt.Errorf("preparation phase returned error: %v", err)
 		}
+		// the executor's own preparation: fitness shared and adjusted once, expected offspring from the adjusted values
+		if err := checkSharedFitness(orgs, pre, sps, opts, rec); err != nil {
+			return fmt.Errorf("after the executor's preparation phase: %v", err)
+		}
+		if err := checkExpectedOffspring(orgs, rec); err != nil {
+			return fmt.Errorf("after the executor's preparation phase: %v", err)
+		}
 		total := 0
 		for _, sp := range pop.Species {
 			if sp.ExpectedOffspring < 0 {
@@ -187,6 +194,9 @@ func CheckC09(c C09Case, rec *Rec) error {
 		}
 		if total != popSize {
 			return fmt.Errorf("the quotas of the old generation's species total %d after the turnover, population size is %d", total, popSize)
+		}
+		if err := checkSharedFitness(orgs, pre, sps, opts, rec); err != nil {
+			return fmt.Errorf("on the old generation after the turnover: %v", err)
 		}
 		return checkExpectedOffspring(orgs, rec)
 	}
